@@ -62,7 +62,9 @@ func (o EditOp) String() string {
 
 var (
 	EditModPaths = []string{"example.com/a", "example.com/b", "example.com/c/v2", "gopkg.in/d.v1", "golang.org/x/e", "x.io/f/g"}
-	editV1       = []string{"v1.0.0", "v1.2.3", "v1.10.0", "v1.9.0", "v0.0.0-20200101000000-abcdefabcdef", "v1.0.0-rc.1", "v2.0.0+incompatible", "v0.3.0"}
+	// includes pairs that are equal under semver.Compare but different strings
+	// (vX.Y.Z and vX.Y.Z+incompatible are both canonical and valid for these paths)
+	editV1       = []string{"v1.0.0", "v1.2.3", "v1.10.0", "v1.9.0", "v0.0.0-20200101000000-abcdefabcdef", "v1.0.0-rc.1", "v2.0.0+incompatible", "v0.3.0", "v1.2.3+incompatible", "v1.0.0+incompatible"}
 	editV2       = []string{"v2.0.0", "v2.1.0", "v2.10.0", "v2.9.0-pre"}
 	editVGopkg   = []string{"v1.0.0", "v1.2.3", "v1.10.0", "v1.9.0"}
 	editGoVers   = []string{"1.16", "1.20", "1.20.5", "1.21", "1.21.0", "1.22rc1", "1.23.1", "1.9", "1.21rc1", "1.100", "1.23beta2", "1.22.0rc1"}
@@ -96,6 +98,9 @@ func decorate(r *rand.Rand, t *tagger, indent, body string, require bool) string
 	var b strings.Builder
 	if r.Intn(5) == 0 {
 		n := 1 + r.Intn(2)
+		if indent != "" && r.Intn(3) == 0 {
+			b.WriteString("\n") // a blank line, then whole-line comments, then the entry
+		}
 		for i := 0; i < n; i++ {
 			if i > 0 && r.Intn(4) == 0 {
 				b.WriteString("\n")
